@@ -2,6 +2,8 @@ import HmfVerif.Real.Tactics
 import HmfVerif.Gen.ExprFits
 import HmfVerif.Spec.Fits
 import HmfVerif.Spec.PublishedFits
+import HmfVerif.Gen.Guards
+import HmfVerif.Spec.Guards
 /-!
 # C06 — every built-in fitting function evaluates its documented closed form
 
@@ -56,5 +58,8 @@ theorem alias_ST : Gen.Fits.ST_fsigma = Gen.Fits.SMT_fsigma := rfl
 
 /-- every registered fit has a generated term (none was untranslatable) -/
 theorem all_fits_translated : Gen.Fits.table.length = 21 := by decide
+
+/-- no fit has acquired a new special case (threshold, redshift switch, guard) beyond the documented ones -/
+theorem guards_fits : Gen.Guards.fits = Spec.Guards.fits := by decide
 
 end Hmf.C06
